@@ -89,6 +89,8 @@ type Fault struct {
 	Mode  string // "eio", "eof", "ff"
 	Count int    // reads seen so far
 	Fired bool
+	// FiredPage is the page number of the failed read, FiredSize its size.
+	FiredPage, FiredSize int
 	// FailRLock makes RLock fail.
 	FailRLock bool
 }
@@ -99,6 +101,7 @@ func (f *Fault) Page(n int, pagesize int) ([]byte, error) {
 	f.Count++
 	if f.K > 0 && f.Count == f.K {
 		f.Fired = true
+		f.FiredPage, f.FiredSize = n, pagesize
 		switch f.Mode {
 		case "eio":
 			return nil, ErrInjected
